@@ -59,7 +59,11 @@ fn search(
             continue;
         }
         let mut m = model.clone();
-        m.apply(&ops[i].req, ops[i].resp.as_ref());
+        if ops[i].req.opcode == crate::ringt::TICK {
+            m.advance(ops[i].req.cas);
+        } else {
+            m.apply(&ops[i].req, ops[i].resp.as_ref());
+        }
         let v = m.take_violations();
         if !v.is_empty() {
             if order.len() + 1 > best.0 {
